@@ -243,7 +243,7 @@ def run(ctx):
     _lockify(ctx)
     quick = ctx.tier == "quick"
     fronts = [("g++", "c++14")] if quick else [("g++", "c++14"), ("g++", "c++17"), ("g++", "c++20"), ("clang++", "c++14"), ("clang++", "c++17")]
-    maxlen = 4 if quick else 6
+    maxlen = 4 if quick else 5
     bit_len = 3 if quick else 4
     stds = ["c++14"] if quick else ["c++14", "c++20"]
     # both parts at once: the static tables compile while the dynamic binaries compile
